@@ -13,7 +13,7 @@ def _member(impl, model):
     if b.get("forced") != "any" and a.get("forced") != b.get("forced"):
         return False
     try:
-        return int(a.get("lat", "0")) <= int(b.get("bound", "0")) + 1500
+        return int(a.get("lat", "0")) <= int(b.get("bound", "0")) + 3000
     except ValueError:
         return False
 
@@ -25,7 +25,7 @@ CONFIG = {
     "trivial": lambda impl: False,
     "rule": "real plugin processes: protocol {netrpc, grpc, grpc+mux} x shutdown behaviour {exits at once, exits after 0.5 s, exits after 4.5 s, ignores the request, frozen with SIGSTOP, "
             "already dead, never completed its handshake, exits before its Quit reply is written (verifhook delay in the plugin)} x launch {Cmd, RunnerFunc around a real process, Reattach} x "
-            "call pattern {single, three sequential, four concurrent, CleanupClients}; observed: Kill returned, latency against the model's bound (+1.5 s slack), forced flag, "
+            "call pattern {single, three sequential, four concurrent, CleanupClients}; observed: Kill returned, latency against the model's bound (+3 s slack), forced flag, "
             "Exited(), /proc state (gone, not a zombie), the cleanup marker written by the plugin after Serve returns; the graceful net/rpc cell is repeated (reply/exit race); "
             "frozen net/rpc (bounded by yamux keep-alive, ~40 s) is thorough-only; every cell is non-trivial",
     "assumptions": ["SIGKILL terminates any process (also a stopped one) and cmd.Wait reaps it: OS behaviour",
